@@ -5,6 +5,7 @@ import (
 	"fmt"
 	"os"
 	"path/filepath"
+	"runtime/pprof"
 	"sort"
 	"strconv"
 	"strings"
@@ -20,6 +21,16 @@ func main() {
 	if len(os.Args) < 2 {
 		fmt.Fprintln(os.Stderr, "usage: govc check <property> <quick|thorough> | govc fn <function> | govc list")
 		os.Exit(2)
+	}
+	if pf := os.Getenv("GOVC_PROF"); pf != "" {
+		f, _ := os.Create(pf)
+		pprof.StartCPUProfile(f)
+		go func() {
+			time.Sleep(60 * time.Second)
+			pprof.StopCPUProfile()
+			f.Close()
+			os.Exit(3)
+		}()
 	}
 	if d := os.Getenv("VERIF_DIR"); d != "" {
 		verifDir = d
@@ -51,6 +62,8 @@ func main() {
 		for _, n := range ns {
 			fmt.Println(n)
 		}
+	case "callees":
+		os.Exit(cmdCallees(repo, os.Args[2:]))
 	case "replay":
 		os.Exit(cmdReplay(os.Args[2]))
 	}
@@ -68,10 +81,15 @@ func cmdFn(repo string, args []string) int {
 		return 2
 	}
 	sweep := len(args) > 1 && args[1] == "sweep"
+	t0 := time.Now()
 	vc, err := p.verifyFunction(f, p.contractFor(f), sweep, false)
 	if err != nil {
 		fmt.Fprintln(os.Stderr, err)
 		return 2
+	}
+	fmt.Printf("generated %d obligations, %d facts, %d terms in %.1fs\n", len(vc.obls), len(vc.facts), termCount, time.Since(t0).Seconds())
+	if os.Getenv("GOVC_GENONLY") != "" {
+		return 0
 	}
 	dir, _ := os.MkdirTemp("", "govc")
 	defer os.RemoveAll(dir)
@@ -410,4 +428,69 @@ func sweepTargets(p *Program, prop string) []*ssa.Function {
 		}
 	}
 	return out
+}
+
+// cmdCallees: library functions and interface methods called (transitively through module code) from fn
+func cmdCallees(repo string, names []string) int {
+	p, err := loadProgram(repo, filepath.Join(verifDir, "contracts", "lib"))
+	if err != nil {
+		fmt.Fprintln(os.Stderr, err)
+		return 2
+	}
+	seen := map[*ssa.Function]bool{}
+	libs := map[string]int{}
+	var walk func(f *ssa.Function)
+	walk = func(f *ssa.Function) {
+		if seen[f] {
+			return
+		}
+		seen[f] = true
+		for _, a := range f.AnonFuncs {
+			walk(a)
+		}
+		for _, b := range f.Blocks {
+			for _, ins := range b.Instrs {
+				c, ok := ins.(ssa.CallInstruction)
+				if !ok {
+					continue
+				}
+				com := c.Common()
+				if com.IsInvoke() {
+					k := "invoke " + typeKey(com.Value.Type()) + "." + com.Method.Name()
+					if p.specs.Contracts[k] != nil || p.specs.Contracts["invoke "+com.Method.Name()] != nil {
+						k += "   [catalogued]"
+					}
+					libs[k]++
+					continue
+				}
+				if g := com.StaticCallee(); g != nil {
+					if inModule(g) && len(g.Blocks) > 0 {
+						walk(g)
+					} else {
+						k := p.shortName(g)
+						if p.specs.Contracts[k] != nil {
+							k += "   [catalogued]"
+						}
+						libs[k]++
+					}
+				}
+			}
+		}
+	}
+	for _, n := range names {
+		if f := p.byName[n]; f != nil {
+			walk(f)
+		} else {
+			fmt.Println("missing", n)
+		}
+	}
+	var ks []string
+	for k := range libs {
+		ks = append(ks, k)
+	}
+	sort.Strings(ks)
+	for _, k := range ks {
+		fmt.Printf("%3d %s\n", libs[k], k)
+	}
+	return 0
 }
